@@ -14,7 +14,9 @@
 (*  3. the REFERENCE PREDICATE Rules (= MustRefuse when non-empty),        *)
 (*     transcribed from the property text and docs/policy-controls.md, NOT *)
 (*     from the code, one separately named rule per conjunct; Judge turns  *)
-(*     an observed verdict into the set of violated rules;                 *)
+(*     an observed verdict into the set of violated rules; the weight the  *)
+(*     maximum fee rate is taken over is the BIP-141 weight of the FINAL   *)
+(*     signed transaction, per input kind (FinalWeight / RefWeight);       *)
 (*  4. Facts: what an abstract (TLC generated) case is expected to look    *)
 (*     like once the harness has concretised it - the same record shape    *)
 (*     the harness logs from the REAL objects, so Step / Rules are          *)
@@ -23,9 +25,16 @@
 (*                                                                         *)
 (* Shape of a concrete case c (all amounts are Big = 8 digits):            *)
 (*   c.pol   [maxfr, unl, limit (msat), ivl, filt]                         *)
-(*   c.ver, c.base (tx.base_size()), c.txw (tx.weight() of the unsigned tx)*)
+(*   c.ver, c.base (tx.base_size()), c.txw (tx.weight() of the transaction *)
+(*           as presented to the check: no witnesses yet)                  *)
 (*   c.ins   <<[v, sw (segwit flag passed), st (prev script type), uck     *)
-(*             (-1, or byte count sum(1+len) of a unilateral-close stack)]>>*)
+(*             (-1, or byte count sum(1+len) of a unilateral-close stack), *)
+(*             ss (bytes of scriptSig the input carries in the PRESENTED   *)
+(*             transaction: 0, or 23 for a P2SH-wrapped P2WPKH input whose *)
+(*             witness program was already filled in by the caller)]>>     *)
+(*   c.fw    -1, or the measured weight of the FINAL transaction after the *)
+(*           node signed it and the harness finalised it (ImplOnchain uses *)
+(*           it only to validate the BIP-141 formula of section 3)         *)
 (*   c.outs  <<[v, path ("none","own","other","badlen"), own ("wallet",    *)
 (*             "xpub","listed","foreign","funding"), st, inlist (script is *)
 (*             literally in the node's allowlist), xin (the xpub it derives  *)
@@ -96,11 +105,21 @@ V(t, tag, ix) == [t |-> t, tag |-> tag, ix |-> ix]
 VOk == V("ok", "", <<>>)
 VErr(tag) == V("err", tag, <<>>)
 
+\* Behaviour switches (what the model says the code does; spec/onchain_switches.json holds HEAD's values):
+\*   sw.wrap  TRUE : fee * 1000 wraps in u64, the rate is cast to u32 with `as`
+\*            FALSE: exact arithmetic / saturating conversion
+\*   sw.flat  TRUE : check_onchain_tx charges EVERY input it can sign the witness of a P2WPKH spend
+\*                   (header + count + len + 72-byte signature + len + 33), whatever its kind - also a
+\*                   taproot key-path input, whose witness is one 64-byte signature
+\*            FALSE: the intended algorithm: a taproot input is charged header + count + len + 64
+Sw(wrap, flat) == [wrap |-> wrap, flat |-> flat]
 SpendValid(st) == st \in {"p2wpkh", "p2sh", "p2tr", "p2pkh", "p2wsh"}
-\* witness-header + element-count + length + sig + len + redeemscript (check_onchain_tx)
-InWit(i) == IF ~SpendValid(i.st) THEN 0
-            ELSE 2 + 1 + 1 + 72 + 1 + (IF i.uck >= 0 THEN i.uck ELSE 33)
-CodeWeight(c) == c.txw + SumInt(c.ins, InWit)
+\* witness-header + element-count + length + sig + len + redeemscript (check_onchain_tx); nothing is
+\* added for a scriptSig: the code takes tx.weight() of the transaction AS PRESENTED (c.txw)
+InWit(i, flat) == IF ~SpendValid(i.st) THEN 0
+                  ELSE IF ~flat /\ i.st = "p2tr" /\ i.uck < 0 THEN 2 + 1 + 1 + 64
+                  ELSE 2 + 1 + 1 + 72 + 1 + (IF i.uck >= 0 THEN i.uck ELSE 33)
+CodeWeight(c, flat) == c.txw + SumInt(c.ins, LAMBDA i : InWit(i, flat))
 
 \* one output, as validate_onchain_tx classifies it: [k |-> "ben" | "unk" | "err", v, tag]
 OutCode(o, c) ==
@@ -138,7 +157,7 @@ FoldOuts(c) ==
 
 \* estimate_feerate_per_kw(fee, weight) = (((fee * 1000) + 999) / weight) as u32
 \* wrap = TRUE: u64 wrapping multiplication/addition (production profile) and truncating cast;
-\* wrap = FALSE: exact arithmetic, saturating conversion
+\* wrap = FALSE: exact arithmetic, saturating conversion   (wrap = sw.wrap of the switches)
 CodeRate(nb, W, wrap) ==
   IF wrap THEN Mod2p32(BDiv(Mod2p64(BAdd(Mod2p64(BShl3(nb)), B(999))), W))
   ELSE BMin(BDiv(BAdd(BShl3(nb), B(999)), W), U32MAX)
@@ -146,8 +165,9 @@ CodeVelAmount(nb, wrap) == IF wrap THEN Mod2p64(BShl3(nb)) ELSE BMin(BShl3(nb), 
 VelLimit(pol) == IF pol.unl THEN U64MAX ELSE pol.limit
 
 \* vel = sum of the fee velocity buckets (msat) before the request
-Step(c, vel, wrap) ==
-  LET no(v) == [v |-> v, nb |-> Big0, vel |-> vel] IN
+Step(c, vel, sw) ==
+  LET wrap == sw.wrap
+      no(v) == [v |-> v, nb |-> Big0, vel |-> vel] IN
   IF c.ver # 2 THEN no(VErr("policy-onchain-format-standard"))
   ELSE IF c.base > MAX_ONCHAIN_TX_SIZE THEN no(VErr("policy-onchain-max-size"))
   ELSE IF (\E k \in DOMAIN c.outs : c.outs[k].ch # 0) /\ (\E i \in DOMAIN c.ins : ~c.ins[i].sw)
@@ -160,22 +180,79 @@ Step(c, vel, wrap) ==
   ELSE IF BLt(si, f.ben) THEN no(VErr("policy-onchain-format-standard"))  \* non-beneficial value underflow
   ELSE LET nb  == BSub(si, f.ben)
            amt == CodeVelAmount(nb, wrap) IN
-  IF BLt(B(c.pol.maxfr), CodeRate(nb, CodeWeight(c), wrap)) THEN no(VErr("policy-onchain-fee-range"))
+  IF BLt(B(c.pol.maxfr), CodeRate(nb, CodeWeight(c, sw.flat), wrap)) THEN no(VErr("policy-onchain-fee-range"))
   ELSE IF BLt(VelLimit(c.pol), BMin(BAdd(vel, amt), U64MAX)) THEN no(VErr("policy-onchain-fee-range"))
   ELSE [v |-> VOk, nb |-> nb, vel |-> BMin(BAdd(vel, amt), U64MAX)]
 
 \* Approve::handle_proposed_onchain on top of the check: [res, asked, ix]
-StepApprove(c, vel, wrap, approve) ==
-  LET s == Step(c, vel, wrap) IN
+StepApprove(c, vel, sw, approve) ==
+  LET s == Step(c, vel, sw) IN
   IF s.v.t = "ok" THEN [res |-> "true", asked |-> FALSE, ix |-> <<>>]
   ELSE IF s.v.t = "unknown" THEN [res |-> IF approve THEN "true" ELSE "false", asked |-> TRUE, ix |-> s.v.ix]
   ELSE [res |-> "err", asked |-> FALSE, ix |-> <<>>]
 
 ---------------------------------------------------------------------------
 \* 3. the reference predicate (property text; docs/policy-controls.md "Onchain Transactions")
-\* Weight: every reasonable reading divides by the weight of the final signed transaction;
-\* the reference takes a generous upper bound for it (73-byte signature, one witness header)
-RefWeight(c) == c.txw + 2 + SumInt(c.ins, LAMBDA i : IF i.uck >= 0 THEN 80 + i.uck ELSE 111)
+\* Weight.  Every reasonable reading of "fee rate" divides by the weight of the FINAL, fully signed
+\* transaction.  It is computed here from the BIP-141 formula
+\*      weight = 4 * (size without witness data) + (marker + flag + witness stacks)
+\* and the per-kind shape of a finalised input (BIP-141/143/341, BIP-16 for the wrapped program) -
+\* NOT from what the code under test adds up:
+\*   kind (c.ins[i].st)        final scriptSig                    final witness stack
+\*   p2wpkh                    as presented (empty)               <sig+hashtype> <33-byte key>
+\*   p2sh (wrapped p2wpkh)     1 push of the 22-byte program      <sig+hashtype> <33-byte key>
+\*   p2pkh                     push <sig+hashtype>, push <key>    empty
+\*   p2tr (key path)           as presented (empty)               <64-byte sig [+hashtype]>
+\*   p2wsh unilateral close    as presented (empty)               <sig+hashtype> + the given stack
+\*   anything else             not the node's to sign: as presented (allowance below)
+\* The transaction is judged AS PRESENTED: a scriptSig the caller already filled in (c.ins[i].ss bytes)
+\* is part of c.txw and is not charged again; one that is still to come is charged at 4 WU per byte.
+VarInt(n) == IF n < 253 THEN 1 ELSE 3
+PK_LEN == 33
+FinalScriptSig(i, sig) ==
+  CASE i.st = "p2sh"  -> 1 + 22
+    [] i.st = "p2pkh" -> (1 + sig) + (1 + PK_LEN)
+    [] OTHER          -> i.ss
+\* bytes by which the base size grows when the presented scriptSig becomes the final one
+SsGrowth(i, sig) ==
+  LET f == FinalScriptSig(i, sig) IN
+  IF f > i.ss THEN (VarInt(f) + f) - (VarInt(i.ss) + i.ss) ELSE 0
+HasWitness(i) == i.uck >= 0 \/ i.st \in {"p2wpkh", "p2sh", "p2tr", "p2wsh"}
+\* one input's witness field: element count + (length + element)*
+FinalWitness(i, sig, sch) ==
+  IF i.uck >= 0 THEN 1 + (1 + sig) + i.uck
+  ELSE IF i.st \in {"p2wpkh", "p2sh", "p2wsh"} THEN 1 + (1 + sig) + (1 + PK_LEN)
+  ELSE IF i.st = "p2tr" THEN 1 + (1 + sch)
+  ELSE 1                                            \* empty stack
+\* weight of the finalised transaction when every ECDSA signature (with its hash-type byte) takes `sig`
+\* bytes and every Schnorr signature `sch`
+FinalWeight(c, sig, sch) ==
+  LET segwit == \E k \in DOMAIN c.ins : HasWitness(c.ins[k]) IN
+  c.txw + 4 * SumInt(c.ins, LAMBDA i : SsGrowth(i, sig))
+        + (IF segwit THEN 2 + SumInt(c.ins, LAMBDA i : FinalWitness(i, sig, sch)) ELSE 0)
+\* sizes: a DER signature is at most 72 bytes, 73 with the hash type (low-S signers: 72); a Schnorr
+\* signature is 64 bytes, 65 with an explicit hash type
+SIG_MAX == 73
+SIG_MIN == 68                                       \* shorter ones have probability < 2^-24
+SCH_MAX == 65
+SCH_MIN == 64
+\* The reference takes the LARGEST final weight (the most lenient bound: never an alarm because a
+\* signature came out short), plus
+\*   - WSLACK weight units per input: the tolerance the reference has granted since its first version
+\*     ("73-byte signature, one witness header per input"; 2 WU are < 0.5 % of an input);
+\*   - for an input the node does not sign (unknown script) the witness of a P2WPKH spend, which
+\*     somebody else may still add.
+\* The slack is one-sided: a validator may use any SMALLER weight (a lower bound refuses more - that
+\* is what check_onchain_tx documents for its estimate); a LARGER one admits fee rates above the
+\* maximum and is a violation of rule "fee".
+WSLACK == 2
+ForeignAllowance(i) == IF SpendValid(i.st) \/ i.uck >= 0 THEN 0 ELSE (1 + SIG_MAX) + (1 + PK_LEN)
+RefWeight(c) == FinalWeight(c, SIG_MAX, SCH_MAX)
+                  + (IF \E k \in DOMAIN c.ins : HasWitness(c.ins[k]) THEN 0 ELSE 2)   \* marker + flag, granted anyway
+                  + SumInt(c.ins, LAMBDA i : WSLACK + ForeignAllowance(i))
+\* binding of the formula to reality: the measured weight of the really signed transaction (c.fw) lies
+\* between the smallest and the largest final weight (only inputs the node signs; see ImplOnchain)
+FinalWeightOK(c) == c.fw < 0 \/ (FinalWeight(c, SIG_MIN, SCH_MIN) <= c.fw /\ c.fw <= FinalWeight(c, SIG_MAX, SCH_MAX))
 \* smallest non-beneficial value whose rate floor(nb*1000/weight) exceeds the maximum
 FeeFloor(c) == BCeilDiv(BMul(B(RefWeight(c)), c.pol.maxfr + 1), 1000)
 
@@ -284,12 +361,15 @@ SimpleKinds == {"W", "Ws", "Wt", "Wk", "Wx", "Wl", "Wn", "L", "Lp", "X", "Xk", "
 FundKinds   == {"F", "Fb", "Fp"}
 ScriptLen(st) == CASE st = "p2wpkh" -> 22 [] st = "p2sh" -> 23 [] st = "p2pkh" -> 25
                    [] st = "p2tr" -> 34 [] st = "p2wsh" -> 34 [] OTHER -> 0
-\* input kinds: previous output script type, segwit flag established by the PSBT layer
+\* input kinds: previous output script type, segwit flag established by the PSBT layer.
+\* "p2sh" / "p2shS": a P2SH-wrapped P2WPKH utxo presented with an empty scriptSig / with the scriptSig
+\* already holding the push of the witness program (see InSs) - the two ways a caller can present it
 UCK_STACK == 78                                   \* one 77-byte witness script: 1 + 77
 InTab ==
   [ p2wpkh  |-> [st |-> "p2wpkh",  sw |-> TRUE,  uck |-> -1],
     p2tr    |-> [st |-> "p2tr",    sw |-> TRUE,  uck |-> -1],
     p2sh    |-> [st |-> "p2sh",    sw |-> FALSE, uck |-> -1],
+    p2shS   |-> [st |-> "p2sh",    sw |-> FALSE, uck |-> -1],
     p2pkh   |-> [st |-> "p2pkh",   sw |-> FALSE, uck |-> -1],
     p2wpkhU |-> [st |-> "p2wpkh",  sw |-> FALSE, uck |-> -1],   \* no input transaction supplied
     uck     |-> [st |-> "p2wsh",   sw |-> TRUE,  uck |-> UCK_STACK],
@@ -300,11 +380,13 @@ CommitTab ==
     active    |-> [nh |-> 1, hasnext |-> FALSE],
     advanced  |-> [nh |-> 2, hasnext |-> FALSE] ]
 
-VarInt(n) == IF n < 253 THEN 1 ELSE 3
-\* serialized size without witnesses; the first input carries `pad` script_sig bytes
+\* scriptSig bytes of input k in the presented transaction: the first input carries `pad` bytes (size
+\* cases); a "p2shS" input carries the push of its witness program
+InSs(a, k) == IF a.ins[k].kind = "p2shS" THEN 1 + 22 ELSE IF k = 1 THEN a.pad ELSE 0
+\* serialized size without witnesses
 BaseSize(a) ==
   4 + VarInt(Len(a.ins))
-    + SumInt([k \in 1..Len(a.ins) |-> k], LAMBDA k : 32 + 4 + 4 + (IF k = 1 THEN VarInt(a.pad) + a.pad ELSE 1))
+    + SumInt([k \in 1..Len(a.ins) |-> k], LAMBDA k : 32 + 4 + 4 + VarInt(InSs(a, k)) + InSs(a, k))
     + VarInt(Len(a.outs)) + SumInt(a.outs, LAMBDA o : 8 + 1 + ScriptLen(KindTab[o.kind].st)) + 4
 
 ChanAt(a, k) == IF \E j \in DOMAIN a.chans : a.chans[j].at = k
@@ -314,9 +396,9 @@ FundIdx(a, k) == IF a.outs[k].slot > 0 THEN a.outs[k].slot
                  ELSE Cardinality({j \in 1..k : a.outs[j].kind \in FundKinds})
 \* abstract case -> expected concrete case
 Facts(a) ==
-  [ pol   |-> a.pol, ver |-> a.ver, base |-> BaseSize(a), txw |-> 4 * BaseSize(a),
+  [ pol   |-> a.pol, ver |-> a.ver, base |-> BaseSize(a), txw |-> 4 * BaseSize(a), fw |-> -1,
     ins   |-> [k \in DOMAIN a.ins |-> LET t == InTab[a.ins[k].kind] IN
-                 [v |-> a.ins[k].v, sw |-> t.sw, st |-> t.st, uck |-> t.uck]],
+                 [v |-> a.ins[k].v, sw |-> t.sw, st |-> t.st, uck |-> t.uck, ss |-> InSs(a, k)]],
     outs  |-> [k \in DOMAIN a.outs |-> LET t == KindTab[a.outs[k].kind] IN
                  [v |-> a.outs[k].v, path |-> t.path, own |-> t.own, st |-> t.st,
                   inlist |-> (t.own = "listed" /\ a.listed) \/ a.outs[k].al,
